@@ -1,7 +1,7 @@
 CONSTANTS
   Variant = "no_allow"
   Family = "render"
-  Size = "q"
+  Size = "m"
 INIT Init
 NEXT Next
 CHECK_DEADLOCK FALSE
